@@ -21,6 +21,7 @@ import (
 	"github.com/lightningnetwork/lnd/fn/v2"
 	"github.com/lightningnetwork/lnd/input"
 	"github.com/lightningnetwork/lnd/internal/verifkit"
+	"github.com/lightningnetwork/lnd/kvdb"
 	"github.com/lightningnetwork/lnd/lnwallet/chainfee"
 	"github.com/lightningnetwork/lnd/lnwire"
 )
@@ -101,6 +102,9 @@ func (p vParty) MarshalJSON() ([]byte, error) {
 	if q.Fwd == nil {
 		q.Fwd = []vFwd{}
 	}
+	if q.Dack == nil {
+		q.Dack = []int64{}
+	}
 	if q.Lmod == nil {
 		q.Lmod = []uint64{}
 	}
@@ -129,7 +133,10 @@ type vParty struct {
 	R     []vEntry  `json:"R"`
 	Net   []string  `json:"net"`
 	Fwd   []vFwd    `json:"fwd"`
-	Thaw  uint32    `json:"thaw"`
+	// indexes set in the SettleFailFilter of the surviving outgoing
+	// channel's forwarding package (read back from the database)
+	Dack []int64 `json:"dack"`
+	Thaw uint32  `json:"thaw"`
 	// ids of the adds that already carry a (not yet compacted) settle/fail:
 	// updateLog.modifiedHtlcs of the local resp. remote log
 	Lmod []uint64 `json:"lmod"`
@@ -280,6 +287,7 @@ func vProject(lc *LightningChannel, out []vMsg) vParty {
 		Ridx: lc.updateLogs.Remote.logIndex, Rhtlc: lc.updateLogs.Remote.htlcCounter,
 		L: vProjectLog(lc.updateLogs.Local), R: vProjectLog(lc.updateLogs.Remote),
 		Net: []string{}, LC: []vCommit{}, RC: []vCommit{}, Fwd: vProjectFwd(lc),
+		Dack: vProjectDack(lc),
 		Thaw: lc.channelState.ThawHeight,
 		Lmod: vSortedIDs(lc.updateLogs.Local.modifiedHtlcs.ToSlice()),
 		Rmod: vSortedIDs(lc.updateLogs.Remote.modifiedHtlcs.ToSlice()),
@@ -348,6 +356,68 @@ func vSourceRef(lc *LightningChannel, id uint64) *channeldb.AddRef {
 		}
 	}
 	return nil
+}
+
+// The answers (settle/fail) a forwarding node relays come back over its
+// OUTGOING channels and sit in those channels' forwarding packages; the
+// reference to that entry is handed to SettleHTLC/FailHTLC as DestRef and
+// acked by the transaction that stores our signature.  vDestOpen is the
+// outgoing channel that is still open (one package with vDestSlots entries,
+// the answer to add id at index id), vDestClosed one that has been closed
+// and wiped since (no package bucket).
+var (
+	vDestOpen   = lnwire.NewShortChanIDFromInt(0xd1d1d1)
+	vDestClosed = lnwire.NewShortChanIDFromInt(0xd2d2d2)
+)
+
+const vDestSlots = 64
+
+func vBackend(lc *LightningChannel) kvdb.Backend {
+	sdb, ok := lc.channelState.Db.(*channeldb.ChannelStateDB)
+	if !ok {
+		return nil
+	}
+	return sdb.GetParentDB().Backend
+}
+
+func vCreateDestPkg(lc *LightningChannel) error {
+	sfs := make([]channeldb.LogUpdate, vDestSlots)
+	for i := range sfs {
+		sfs[i] = channeldb.LogUpdate{LogIndex: uint64(i), UpdateMsg: &lnwire.UpdateFailHTLC{ID: uint64(i), Reason: []byte("x")}}
+	}
+	pkg := channeldb.NewFwdPkg(vDestOpen, 1, nil, sfs)
+	return kvdb.Update(vBackend(lc), func(tx kvdb.RwTx) error {
+		return channeldb.NewChannelPackager(vDestOpen).AddFwdPkg(tx, pkg)
+	}, func() {})
+}
+
+// vDestRef: the answer to an even add id came over the open outgoing channel,
+// to an odd one over the channel that is gone.
+func vDestRef(id uint64) *channeldb.SettleFailRef {
+	src := vDestOpen
+	if id%2 == 1 {
+		src = vDestClosed
+	}
+	return &channeldb.SettleFailRef{Source: src, Height: 1, Index: uint16(id % vDestSlots)}
+}
+
+func vProjectDack(lc *LightningChannel) []int64 {
+	res := []int64{}
+	var pkgs []*channeldb.FwdPkg
+	err := kvdb.View(vBackend(lc), func(tx kvdb.RTx) error {
+		var err error
+		pkgs, err = channeldb.NewChannelPackager(vDestOpen).LoadFwdPkgs(tx)
+		return err
+	}, func() {})
+	if err != nil || len(pkgs) != 1 {
+		return append(res, -1)
+	}
+	for i := uint16(0); i < vDestSlots; i++ {
+		if pkgs[0].SettleFailFilter.Contains(i) {
+			res = append(res, int64(i))
+		}
+	}
+	return res
 }
 
 // vDbTxid reads the id of the last committed read-write transaction from the
@@ -543,6 +613,9 @@ func TestVerifChannelExec(t *testing.T) {
 
 		lastTx := map[string]int64{}
 		for n, s := range sides {
+			if err := vCreateDestPkg(s.lc); err != nil {
+				t.Fatalf("destination package: %v", err)
+			}
 			lastTx[n] = vDbTxid(s.lc)
 		}
 		// a schedule step that the real objects cannot take (the peer never
@@ -564,11 +637,20 @@ func TestVerifChannelExec(t *testing.T) {
 				var err error
 				txeq, relh := -1, int64(-1)
 				nph, lup, crp, nrk, rsk := int64(-1), int64(-1), int64(-1), int64(-1), int64(-1)
-				pop := func() vMsg {
+				pop := func(kinds ...string) vMsg {
 					if len(peer.out) == 0 {
 						panic(verifDiverged(fmt.Sprintf("%s: %v: peer queue empty", f, e)))
 					}
 					m := peer.out[0]
+					ok := false
+					for _, k := range kinds {
+						ok = ok || k == m.kind
+					}
+					if !ok {
+						// the real peer queued something else than the schedule
+						// expects here: the step that produced it is already recorded
+						panic(verifDiverged(fmt.Sprintf("%s: %v: head of peer queue is %q", f, e, m.kind)))
+					}
 					peer.out = peer.out[1:]
 					return m
 				}
@@ -616,21 +698,25 @@ func TestVerifChannelExec(t *testing.T) {
 					}
 					if e.Y == 1 {
 						pre := pres[pd.RHash]
-						err = me.lc.SettleHTLC(pre, pd.HtlcIndex, vSourceRef(me.lc, pd.HtlcIndex), nil, nil)
+						err = me.lc.SettleHTLC(pre, pd.HtlcIndex, vSourceRef(me.lc, pd.HtlcIndex), vDestRef(pd.HtlcIndex), nil)
 						if err == nil {
 							me.out = append(me.out, vMsg{kind: "settle", id: pd.HtlcIndex, pre: pre})
 						}
-					} else if e.Y == 2 {
+					} else if e.Y == 2 && pd.HtlcIndex%2 == 1 {
 						// update_fail_malformed_htlc: the receiver handles it like a fail
+						// (only for answers whose outgoing channel is gone: the call takes
+						// no destination reference)
 						err = me.lc.MalformedFailHTLC(
 							pd.HtlcIndex, lnwire.CodeInvalidOnionHmac, sha256.Sum256([]byte("onion")),
 							vSourceRef(me.lc, pd.HtlcIndex),
 						)
+						// (MalformedFailHTLC takes no destination reference: the link
+						// only calls it for adds it fails itself, never for a relayed answer)
 						if err == nil {
 							me.out = append(me.out, vMsg{kind: "fail", id: pd.HtlcIndex})
 						}
 					} else {
-						err = me.lc.FailHTLC(pd.HtlcIndex, []byte("x"), vSourceRef(me.lc, pd.HtlcIndex), nil, nil)
+						err = me.lc.FailHTLC(pd.HtlcIndex, []byte("x"), vSourceRef(me.lc, pd.HtlcIndex), vDestRef(pd.HtlcIndex), nil)
 						if err == nil {
 							me.out = append(me.out, vMsg{kind: "fail", id: pd.HtlcIndex})
 						}
@@ -642,16 +728,16 @@ func TestVerifChannelExec(t *testing.T) {
 						me.out = append(me.out, vMsg{kind: "sig", sigs: ns.CommitSigs})
 					}
 				case "RecvAdd":
-					_, err = me.lc.ReceiveHTLC(pop().add)
+					_, err = me.lc.ReceiveHTLC(pop("add").add)
 				case "RecvRes":
-					m := pop()
+					m := pop("settle", "fail")
 					if m.kind == "settle" {
 						err = me.lc.ReceiveHTLCSettle(m.pre, m.id)
 					} else {
 						err = me.lc.ReceiveFailHTLC(m.id, []byte("x"))
 					}
 				case "RecvSig":
-					err = me.lc.ReceiveNewCommitment(pop().sigs)
+					err = me.lc.ReceiveNewCommitment(pop("sig").sigs)
 					if err == nil {
 						mine := me.lc.commitChains.Local.tip().txn
 						theirs := peer.lc.commitChains.Remote.tip().txn
@@ -669,7 +755,7 @@ func TestVerifChannelExec(t *testing.T) {
 						nph = vPointIndex(me.lc, rev.NextRevocationKey)
 					}
 				case "RecvRev":
-					_, _, err = me.lc.ReceiveRevocation(pop().rev)
+					_, _, err = me.lc.ReceiveRevocation(pop("rev").rev)
 					if err == nil {
 						rsk = vStaleSecrets(me.stale, peer.lc)
 					}
@@ -679,7 +765,7 @@ func TestVerifChannelExec(t *testing.T) {
 						me.out = append(me.out, vMsg{kind: "fee", fee: int64(e.X)})
 					}
 				case "RecvFee":
-					err = me.lc.ReceiveUpdateFee(chainfee.SatPerKWeight(pop().fee))
+					err = me.lc.ReceiveUpdateFee(chainfee.SatPerKWeight(pop("fee").fee))
 				case "Disconnect":
 					for _, s := range sides {
 						var nlc *LightningChannel
@@ -708,6 +794,10 @@ func TestVerifChannelExec(t *testing.T) {
 					default:
 						err = me.stale.ResetCloseConfirmationHeight()
 					}
+				case "LiveRefresh":
+					// channelLink.UpdateShortChanID: the live channel's state is
+					// re-read from the database, the LightningChannel lives on
+					err = me.lc.channelState.Refresh()
 				case "SendReest":
 					var m *lnwire.ChannelReestablish
 					m, err = me.lc.channelState.ChanSyncMsg()
@@ -742,7 +832,7 @@ func TestVerifChannelExec(t *testing.T) {
 					}
 				case "RecvReest":
 					var msgs []lnwire.Message
-					msgs, _, _, err = me.lc.ProcessChanSyncMsg(ctxb, pop().reest)
+					msgs, _, _, err = me.lc.ProcessChanSyncMsg(ctxb, pop("reest").reest)
 					for _, x := range msgs {
 						switch mm := x.(type) {
 						case *lnwire.UpdateAddHTLC:
